@@ -3,23 +3,32 @@ import FitProps.BridgeLemmas
 import FitProps.CrcAlgebra
 import FitProps.C18
 import FitModel.FitFormat
+import FitProps.C02ChainLemmas
 /-!
 # C02 — Successful encodes are well-formed, self-consistent FIT streams
 
 Specification: `FitModel/FitFormat.lean` (independent reading of the protocol framing).
 PROPERTY THEOREMS: C02_parses, C02_datasize, C02_header_crc, C02_crc_whole_sequence_partial, C02_legacy_crc_witness,
-C02_decodes (the SDK's own decoder accepts every successful encode, with checksums on)
+C02_decodes (the SDK's own decoder accepts every successful encode, with checksums on), and — at the end of the file —
+C02_wellformed_mixed, C02_wellformed (the whole-stream statement).
 The structural half of `WellFormed` is `C02_parses` (via the refinement "the decoder's framing refines the
 spec's framing", FitProps/BridgeLemmas.lean: records_spec); the CRC half is `C02_header_crc` and
-`C02_crc_whole_sequence_partial` at the byte level. What is not done is only the bookkeeping that restates the
-two CRC theorems through `SeqView.start`/`slice` offsets of a chain (`C02_wellformed_full` stays a `def`);
-`WellFormed` as a whole is evaluated on the implementation's bytes by the driver (`--prop` of family encw).
+`C02_crc_whole_sequence_partial` at the byte level. `C02_wellformed` / `C02_wellformed_mixed` restate both through the
+`SeqView.start` / `slice` offsets of a chain of any length (bookkeeping: FitProps/C02ChainLemmas.lean): for 14-byte
+headers `FitFormat.WellFormed (encodeChain o fits)` with one sequence per FIT value; for mixed chains headerCrcOk /
+fileCrcOk exactly for the sequences whose header has 14 bytes and, for the 12-byte ones, file CRC = CRC of the records
+only (the code's behaviour, finding KF-C02-legacy-crc). `C02_wellformed_full` — no restriction on the header size — stays a
+`def`: `C02_legacy_crc_witness` refutes it for a 12-byte header. The theorems take the hypothesis that the output is a
+byte stream (`C02_ByteOK`: true by type in the code, a fact about `Nat`s in the model).
+`WellFormed` as a whole is also evaluated on the implementation's bytes by the driver (`--prop` of family encw).
 -/
 namespace Fit.C02
 open Fit.Wire
 open Fit.Crc (write crcSpec crc_append_self crcSpec_append)
 
-/-- the full statement: every successful encode is a well-formed stream with one sequence per FIT value -/
+/-- the full statement: every successful encode is a well-formed stream with one sequence per FIT value — whatever the
+header size. Proved for 14-byte headers (`C02_wellformed`, at the end of this file, for byte streams); false for 12-byte
+headers (`C02_legacy_crc_witness`, KF-C02-legacy-crc; what holds instead: `C02_wellformed_mixed`). -/
 def C02_wellformed_full : Prop :=
   ∀ (o : Opts), OptsOK o → ∀ fits : List (Hdr × List WMsg), (∀ f ∈ fits, FitOK o f.1 f.2) →
     ∃ seqs, FitFormat.parseStream (encodeChain o fits) = some seqs ∧ seqs.length = fits.length ∧
@@ -96,10 +105,128 @@ theorem C02_legacy_crc_witness :
 /-- THE SDK READS WHAT IT WROTE: with checksum verification on, `Decode` accepts every successful encode of
 a chain and returns one sequence per FIT value whose header data size is the exact record byte count. -/
 theorem C02_decodes (tsKnown : Nat → Bool) (o : Opts) (ho : OptsOK o)
-    (fits : List (Hdr × List WMsg)) (hne : fits ≠ []) (hall : ∀ f ∈ fits, FitOK o f.1 f.2) :
+    (fits : List (Hdr × List WMsg)) (hne : fits ≠ []) (hall : ∀ f ∈ fits, FitOK o f.1 f.2)
+    (hdesc : ∀ f ∈ fits, msgsDescOK [] f.2 = true) :
     ∃ evs, decodeStream tsKnown true (fits.length + 1) true (encodeChain o fits) = (evs, none) ∧
       (seqsOf evs).length = fits.length ∧ AllMatch (FitMatches o) fits (seqsOf evs) := by
-  obtain ⟨evs, h1, h2⟩ := decodeStream_encodeChain tsKnown true o ho fits hall true (fun _ => hne) _ (Nat.lt_succ_self _)
+  obtain ⟨evs, h1, h2⟩ := decodeStream_encodeChain tsKnown true o ho fits hall hdesc true (fun _ => hne) _ (Nat.lt_succ_self _)
   exact ⟨evs, h1, h2.length_eq.symm, h2⟩
+
+/-! ### the whole-stream statement (offset bookkeeping: FitProps/C02ChainLemmas.lean) -/
+
+/-- the encoder's output for `f` is a BYTE stream. In the code this holds by type (`[]byte`; `ProtocolVersion` is a
+`byte`); the model's bytes are `Nat`, so it is a hypothesis here (`E2E.encodeMsgs_bytes`, FitProps/EndToEndLemmas.lean,
+derives the second field from the typing of validated messages). -/
+structure C02_ByteOK (o : Opts) (f : Hdr × List WMsg) : Prop where
+  protoVer : f.1.protoVer < 256
+  recs : Fit.C18.Bytes (encodeMsgs o (freshEnc o) f.2)
+
+/-- WELL-FORMED STREAMS, every chain, 14- and 12-byte headers mixed: a successful encode of `fits` parses under the
+independent framing spec into exactly one sequence view per FIT value, in order, and against the bytes of the WHOLE
+stream (through the views' own `start` offsets): each view has the header size the caller chose and the exact record
+byte count as data size; a 14-byte header carries the CRC-16 of the sequence's first twelve bytes (`headerCrcStrict`,
+hence `headerCrcOk`), and its sequence's stored file CRC is the CRC-16 of EVERY preceding byte of the sequence, header
+included (`fileCrcOk`); for a 12-byte (legacy) header — no header CRC — the stored file CRC is the CRC-16 of the
+records only, the code's behaviour (open finding KF-C02-legacy-crc: the protocol wants the header included,
+`C02_legacy_crc_witness`). -/
+theorem C02_wellformed_mixed (o : Opts) (ho : OptsOK o) (fits : List (Hdr × List WMsg))
+    (hall : ∀ f ∈ fits, FitOK o f.1 f.2) (hbytes : ∀ f ∈ fits, C02_ByteOK o f) :
+    ∃ seqs, FitFormat.parseStream (encodeChain o fits) = some seqs ∧ seqs.length = fits.length ∧
+      ∀ p ∈ fits.zip seqs,
+        p.2.header.size = p.1.1.size ∧
+        p.2.header.dataSize = (encodeMsgs o (freshEnc o) p.1.2).length ∧
+        FitFormat.headerCrcStrict (encodeChain o fits) p.2 = true ∧
+        FitFormat.headerCrcOk (encodeChain o fits) p.2 = true ∧
+        (p.1.1.size = 14 → FitFormat.fileCrcOk (encodeChain o fits) p.2 = true) ∧
+        (p.1.1.size = 12 → p.2.header.crc = none ∧
+          p.2.crc = crcSpec 0 (FitFormat.slice (encodeChain o fits) (p.2.start + 12) p.2.header.dataSize)) := by
+  have hlen : fits.length ≤ (encodeChain o fits).length := by
+    clear hall hbytes
+    induction fits with
+    | nil => simp
+    | cons f fs ih =>
+      have := Bridge.encodeFit_length_pos o f.1 f.2
+      simp [encodeChain, List.length_append] at ih ⊢; omega
+  obtain ⟨seqs, hs, hl, hfacts⟩ := parseSeqs_facts o ho fits hall [] _ hlen
+  refine ⟨seqs, hs, hl, ?_⟩
+  intro p hp
+  have hpf : p.1 ∈ fits := (List.of_mem_zip hp).1
+  have F := hfacts p hp
+  rw [List.nil_append] at F
+  have hok := hall p.1 hpf
+  have hby := hbytes p.1 hpf
+  have hsz : p.1.1.size < 256 := by rcases hok.size with h | h <;> omega
+  have hb12 : Fit.C18.Bytes (b12 p.1.1 (encodeMsgs o (freshEnc o) p.1.2).length) := b12_bytes _ _ hsz hby.protoVer
+  have hw12 := Fit.C18.C18_write_eq_spec _ hb12 0 (by decide)
+  have hwR := Fit.C18.C18_write_eq_spec _ hby.recs 0 (by decide)
+  have hstrict : FitFormat.headerCrcStrict (encodeChain o fits) p.2 = true := by
+    unfold FitFormat.headerCrcStrict
+    by_cases h14 : p.1.1.size = 14
+    · have hc := F.hcrc
+      rw [if_pos h14] at hc
+      rw [hc]
+      simp only [decide_eq_true_eq]
+      rw [F.hdr12, hw12]
+    · have hc := F.hcrc
+      rw [if_neg h14] at hc
+      rw [hc]
+  refine ⟨F.size, F.dataSize, hstrict, ?_, ?_, ?_⟩
+  · unfold FitFormat.headerCrcOk
+    unfold FitFormat.headerCrcStrict at hstrict
+    cases hc : p.2.header.crc with
+    | none => rfl
+    | some c =>
+      rw [hc] at hstrict
+      simp only [decide_eq_true_eq] at hstrict
+      simp [hstrict]
+  · intro h14
+    unfold FitFormat.fileCrcOk
+    rw [F.whole, F.crc, hwR]
+    have hhdr : hdrBytes p.1.1 (encodeMsgs o (freshEnc o) p.1.2).length =
+        b12 p.1.1 (encodeMsgs o (freshEnc o) p.1.2).length ++
+          Wire.le16 (crcSpec 0 (b12 p.1.1 (encodeMsgs o (freshEnc o) p.1.2).length)) := by
+      have hw' := hw12
+      simp only [b12, h14] at hw'
+      simp only [hdrBytes, h14, if_true, b12, hw']
+    have hzero : crcSpec 0 (hdrBytes p.1.1 (encodeMsgs o (freshEnc o) p.1.2).length) = 0 := by
+      rw [hhdr]
+      have := crc_append_self _ hb12
+      simpa [Fit.Crc.le16, Wire.le16] using this
+    rw [crcSpec_append, hzero]; simp
+  · intro h12
+    have hne : ¬ p.1.1.size = 14 := by omega
+    refine ⟨by rw [F.hcrc, if_neg hne], ?_⟩
+    have := F.recs
+    rw [F.size, h12] at this
+    rw [this, F.crc, hwR]
+
+/-- WELL-FORMED STREAMS (the statement of DESIGN §3 C02, for 14-byte headers — the default; with a 12-byte header the
+file-CRC clause is the open finding KF-C02-legacy-crc, see `C02_wellformed_mixed` for what holds then): every
+successful encode of a chain of ANY length is a well-formed stream under the independent framing spec — it parses into
+sequences with nothing between or after them, every header CRC and every file CRC (over all preceding bytes of its
+sequence) is correct — with exactly one sequence per FIT value. -/
+theorem C02_wellformed (o : Opts) (ho : OptsOK o) (fits : List (Hdr × List WMsg))
+    (hall : ∀ f ∈ fits, FitOK o f.1 f.2) (hbytes : ∀ f ∈ fits, C02_ByteOK o f) (h14 : ∀ f ∈ fits, f.1.size = 14) :
+    FitFormat.WellFormed (encodeChain o fits) ∧
+    ∃ seqs, FitFormat.parseStream (encodeChain o fits) = some seqs ∧ seqs.length = fits.length := by
+  obtain ⟨seqs, hs, hl, hp⟩ := C02_wellformed_mixed o ho fits hall hbytes
+  refine ⟨⟨seqs, hs, ?_⟩, seqs, hs, hl⟩
+  intro s hsm
+  obtain ⟨i, hi, rfl⟩ := List.getElem_of_mem hsm
+  have hif : i < fits.length := by omega
+  have hmem : (fits[i], seqs[i]) ∈ fits.zip seqs := by
+    have : (fits.zip seqs)[i]'(by simp [List.length_zip]; omega) = (fits[i], seqs[i]) := by simp
+    rw [← this]; exact List.getElem_mem _
+  obtain ⟨_, _, _, h4, h5, _⟩ := hp _ hmem
+  exact ⟨h4, h5 (h14 _ (List.getElem_mem hif))⟩
+
+/-- the hypotheses are met by an ordinary two-sequence chain (non-vacuity), and the conclusion is what the executable
+spec says of its bytes -/
+example :
+    let o : Opts := ⟨0, false, 1⟩
+    let fits : List (Hdr × List WMsg) := [(⟨14, 32, 2158⟩, [⟨0, [⟨0, 0, 3, [4]⟩], []⟩]), (⟨14, 16, 2158⟩, [⟨20, [⟨253, 4, 0x86, [1, 2, 3, 4]⟩], []⟩])]
+    (∀ f ∈ fits, f.1.size = 14 ∧ f.1.protoVer < 256 ∧ (∀ b ∈ encodeMsgs o (freshEnc o) f.2, b < 256)) ∧
+    FitFormat.wellFormed (encodeChain o fits) = true ∧ ((FitFormat.parseStream (encodeChain o fits)).map List.length) = some 2 := by
+  decide +kernel
 
 end Fit.C02
